@@ -95,6 +95,10 @@ def run_unit(name, tier):
     labels = verus.labels_in(src)
     labels.pop("CANARY", None)
     expected = list(getattr(unit, "LABELS", []))
+    if hasattr(unit, "DYNAMIC_LABELS"):
+        # rows generated from a data table of /repo (e.g. std.sql.prql): the list follows the table, the unit itself
+        # guards the table's minimum content
+        expected += list(unit.DYNAMIC_LABELS())
     out["labels"] = sorted(labels)
     missing = [l for l in expected if l not in labels]
     extra = [l for l in labels if l not in expected]
